@@ -1,6 +1,7 @@
 package dptc
 
 import (
+	"bytes"
 	"fmt"
 	"go/ast"
 	"go/parser"
@@ -74,6 +75,13 @@ func declaredDPTTypes() ([]string, error) {
 	return out, nil
 }
 
+func first(l []string) string {
+	if len(l) == 0 {
+		return ""
+	}
+	return l[0]
+}
+
 // c19Static returns every violated registry law (several findings are possible at once).
 func c19Static() []*common.Fail {
 	var fails []*common.Fail
@@ -109,6 +117,20 @@ func c19Static() []*common.Fail {
 		if !deref(d).IsZero() {
 			fails = append(fails, common.Failf("not-zero", "Produce(%q) yields the non-zero value %s", n, showDP(d)))
 		}
+	}
+	// the listing handed out belongs to the caller: filtering or overwriting it in place must not change what the
+	// registry lists afterwards
+	before := append([]string{}, names...)
+	sort.Strings(before)
+	for i := range names {
+		names[i] = "no.such"
+	}
+	_ = append(names[:0], "0.000")
+	after := append([]string{}, dpt.ListSupportedTypes()...)
+	sort.Strings(after)
+	if !reflect.DeepEqual(before, after) {
+		fails = append(fails, common.Failf("listing-shared", "after a caller overwrote the slice ListSupportedTypes() had returned, the next call lists %d names (first %q) instead of the %d registered ones (first %q): the listing aliases registry state",
+			len(after), first(after), len(before), first(before)))
 	}
 	decl, err := declaredDPTTypes()
 	if err != nil {
@@ -146,6 +168,9 @@ type c19Handle struct {
 	name string
 	d    dpt.Datapoint
 	want reflect.Value // private copy of the value the handle must hold
+	// enc is the slice the handle's last Pack() returned, encCopy a private copy taken at that moment: an encoding
+	// handed out belongs to the caller and must not change when another instance is encoded or decoded later
+	enc, encCopy []byte
 }
 
 func snapshot(d dpt.Datapoint) reflect.Value {
@@ -175,6 +200,10 @@ func c19History(ops []c19Op, addrs map[uintptr]c19Addr, mu *sync.Mutex, who stri
 			if !valEqual(deref(h.d), h.want) {
 				return common.Failf("instance-changed", "%s: after %s, handle #%d (%s) holds %v but nothing was decoded into it since it held %v",
 					who, after, i, h.name, deref(h.d).Interface(), h.want.Interface())
+			}
+			if !bytes.Equal(h.enc, h.encCopy) {
+				return common.Failf("shared-encoding-buffer", "%s: after %s, the bytes an earlier Pack() of handle #%d (%s) returned changed from %x to %x: encodings of different instances share memory",
+					who, after, i, h.name, h.encCopy, h.enc)
 			}
 		}
 		return nil
@@ -217,6 +246,8 @@ func c19History(ops []c19Op, addrs map[uintptr]c19Addr, mu *sync.Mutex, who stri
 				_ = before
 			}
 			h.want = snapshot(h.d)
+			h.enc = h.d.Pack()
+			h.encCopy = append([]byte{}, h.enc...)
 			what += fmt.Sprintf(" into %s", h.name)
 		case "lookup":
 			if f := c19Lookup(op.Name); f != nil {
@@ -292,8 +323,10 @@ func c19Run(p c19Plan) *common.Fail {
 		// after decoding payload P must be what a decode of P into a fresh instance yields when nothing else runs
 		// (op list of goroutine g: one produce, then its payloads; the repeat count rides in the produce's H)
 		type want struct {
-			ok  bool
-			val reflect.Value
+			ok   bool
+			val  reflect.Value
+			pack []byte
+			str  string
 		}
 		wants := make([][]want, len(p.Ops))
 		for g, ops := range p.Ops {
@@ -303,7 +336,11 @@ func c19Run(p c19Plan) *common.Fail {
 					return c19Lookup(ops[0].Name)
 				}
 				err := d.Unpack(unhx(op.Hex))
-				wants[g] = append(wants[g], want{err == nil, snapshot(d)})
+				w := want{ok: err == nil, val: snapshot(d)}
+				if err == nil {
+					w.pack, w.str = append([]byte{}, d.Pack()...), d.String()
+				}
+				wants[g] = append(wants[g], w)
 			}
 		}
 		res := make([]*common.Fail, len(p.Ops))
@@ -332,6 +369,17 @@ func c19Run(p c19Plan) *common.Fail {
 							if err == nil && !valEqual(deref(d), w.val) {
 								return common.Failf("decode-interference", "g%d (%s): round %d: decoding %x yields %v while %d other goroutines decode into their own instances; alone it yields %v",
 									g, ops[0].Name, r, pl, deref(d).Interface(), len(p.Ops)-1, w.val.Interface())
+							}
+							if err == nil {
+								// encoding and rendering the private instance while the others do the same with theirs
+								if pk := d.Pack(); !bytes.Equal(pk, w.pack) {
+									return common.Failf("encode-interference", "g%d (%s): round %d: encoding %v gives %x while %d other goroutines encode their own instances; alone it gives %x",
+										g, ops[0].Name, r, deref(d).Interface(), pk, len(p.Ops)-1, w.pack)
+								}
+								if st := d.String(); st != w.str {
+									return common.Failf("encode-interference", "g%d (%s): round %d: String() of %v gives %q while %d other goroutines render their own instances; alone it gives %q",
+										g, ops[0].Name, r, deref(d).Interface(), st, len(p.Ops)-1, w.str)
+								}
 							}
 						}
 					}
